@@ -18,13 +18,15 @@ package flood
 
 import (
 	"fmt"
+	"strings"
 	"testing"
 
 	"github.com/postalsys/muti-metroo/internal/protocol"
 	"github.com/postalsys/muti-metroo/internal/verifkit"
 )
 
-func c15Judge(r *verifkit.R, phase string, ci int, res *convResult, k int, plumbed, chain bool) {
+// announcers: the agents that announced (nil = all); only they are judged as origins on chains.
+func c15Judge(r *verifkit.R, phase string, ci int, res *convResult, k int, plumbed, chain bool, announcers map[int]bool) {
 	s := res.S
 	vio := 0
 	note := ""
@@ -63,6 +65,12 @@ func c15Judge(r *verifkit.R, phase string, ci int, res *convResult, k int, plumb
 		if len(f.Path) == k+1 {
 			r.Add("frames_at_limit_edge", 1)
 		}
+		// the same two bounds by the harness's own hop count (links crossed), which does not
+		// depend on how the path was encoded on the wire
+		if f.Hops > k+1 {
+			beyond++
+			bad("beyond-limit:announcement-forwarded", fmt.Sprintf("max_hops=%d: agent %d sent origin %d's announcement on to %d although it had already crossed %d links (wire path shows %d entries)", k, f.From, f.Origin, f.To, f.Hops-1, len(f.Path)))
+		}
 	}
 	far := 0
 	if chain {
@@ -79,9 +87,20 @@ func c15Judge(r *verifkit.R, phase string, ci int, res *convResult, k int, plumb
 				if d == 0 {
 					continue
 				}
+				if announcers != nil && !announcers[y] {
+					continue
+				}
 				if d > k {
 					far++
 					r.Add("pairs_beyond_limit", 1)
+					// on a chain the way is unique: x is d hops from y whatever the frames say
+					for key := range have {
+						if strings.HasPrefix(key, fmt.Sprintf("%d|", y)) {
+							beyond++
+							bad("beyond-limit:route-stored", fmt.Sprintf("max_hops=%d: agent %d, %d hops from agent %d on a chain, stores %s", k, x, d, y, key[strings.Index(key, "|")+1:]))
+							break
+						}
+					}
 					continue
 				}
 				r.Add("pairs_within_limit", 1)
@@ -143,7 +162,7 @@ func TestVerif_C15(t *testing.T) {
 		}
 		for _, k := range []int{1, 2, 3, 4, 16} {
 			cnt, _ := convDFS(simChain(n), all, mk(k), r.N(60, 5000), func(res *convResult, sched int) {
-				c15Judge(r, "chain", n*1000000+k*10000+sched, res, k, plumbed, true)
+				c15Judge(r, "chain", n*1000000+k*10000+sched, res, k, plumbed, true, nil)
 			})
 			r.Add("chain_schedules", cnt)
 		}
@@ -153,8 +172,38 @@ func TestVerif_C15(t *testing.T) {
 		n, k := rng.Range(3, 7), rng.Range(1, 4)
 		res := convRun(rng, simChain(n), "built", false, mk(k))
 		defer res.Close()
-		c15Judge(r, "chainbuilt", ci, res, k, plumbed, true)
+		c15Judge(r, "chainbuilt", ci, res, k, plumbed, true, nil)
 	})
+	// chains longer than the largest legal limit: the one-byte counts of path and seen-by
+	// wrap at 256 entries, exactly where max_hops = 255 has to cut
+	r.Cases("longchain", r.N(3, 24), func(ci int, rng *verifkit.Rand) {
+		k := []int{255, 254, 255}[ci%3]
+		n := rng.Range(k+3, 270)
+		s := newSimNet(n, mk(k))
+		res := &convResult{S: s, G: simChain(n), Class: "longchain", Adverts: map[int][]simRouteKey{}, Quiesced: true}
+		defer res.Close()
+		s.ConnectGraph(res.G)
+		ann := map[int]bool{0: true, n - 1: true}
+		if ci%2 == 1 {
+			ann[rng.Range(1, n-2)] = true
+		}
+		for o := range ann {
+			for _, key := range []simRouteKey{{Kind: "cidr", Key: simCIDR(o, false).String()}, {Kind: "domain", Key: simDomain(o, true, 0)}} {
+				if s.AddLocal(o, key) {
+					res.Adverts[o] = append(res.Adverts[o], key)
+				}
+			}
+		}
+		for o := range ann {
+			s.Announce(o)
+		}
+		res.Desc = fmt.Sprintf("longchain n=%d k=%d announcers=%v", n, k, ann)
+		res.Quiesced = s.simRunRandom(rng, &simSched{MaxSteps: 20 * n * len(ann)})
+		s.Trace = append(s.Trace[:min(len(s.Trace), 20)], fmt.Sprintf("... %d deliveries", s.Steps))
+		r.Add("longchain_cases", 1)
+		c15Judge(r, "longchain", ci, res, k, plumbed, true, ann)
+	})
+	r.Require("longchain_cases", 3)
 	graphs := map[int][]simGraph{}
 	for n := 3; n <= 5; n++ {
 		graphs[n] = simAllConnectedGraphs(n)
@@ -168,7 +217,7 @@ func TestVerif_C15(t *testing.T) {
 		}
 		res := convRun(rng, graphs[n][rng.Intn(len(graphs[n]))], class, true, mk(k))
 		defer res.Close()
-		c15Judge(r, "mesh", ci, res, k, plumbed, false)
+		c15Judge(r, "mesh", ci, res, k, plumbed, false, nil)
 	})
 	// sparse 6-7 node graphs: long ways round
 	r.Cases("sparse", r.N(300, 20000), func(ci int, rng *verifkit.Rand) {
@@ -176,7 +225,7 @@ func TestVerif_C15(t *testing.T) {
 		k := rng.Range(1, 4)
 		res := convRun(rng, simRandomConnectedGraph(rng, n, 12), "flood", true, mk(k))
 		defer res.Close()
-		c15Judge(r, "sparse", ci, res, k, plumbed, false)
+		c15Judge(r, "sparse", ci, res, k, plumbed, false, nil)
 	})
 	r.Set("flood_config_has_max_hops", plumbed)
 	r.Require("entries_checked", 5000)
